@@ -967,8 +967,20 @@ func c14dialTimeout(rep *vh.Report, seed uint64, idx int) {
 		rep.Inconclusive("C14 dial-timeout: the kernel still accepts connections with a full backlog-0 queue")
 		return
 	}
+	// the instants at which the endpoint starts its connection attempts
+	var amu sync.Mutex
+	var attempts []time.Time
+	gomavlib.VerifSetHook(func(point string, _ *gomavlib.Channel) {
+		if point == "client.beforeConnect" {
+			amu.Lock()
+			attempts = append(attempts, time.Now())
+			amu.Unlock()
+		}
+	})
+	defer gomavlib.VerifSetHook(nil)
+	const dialTimeout = 200 * time.Millisecond
 	node := &gomavlib.Node{Endpoints: []gomavlib.EndpointConf{gomavlib.EndpointTCPClient{Address: addr}}, Dialect: testDialect, OutVersion: gomavlib.V2, OutSystemID: 36,
-		HeartbeatDisable: true, ReadTimeout: 200 * time.Millisecond, IdleTimeout: 3 * time.Second}
+		HeartbeatDisable: true, ReadTimeout: dialTimeout, IdleTimeout: 3 * time.Second}
 	if err := node.Initialize(); err != nil {
 		rep.HarnessError(err.Error())
 		return
@@ -976,6 +988,20 @@ func c14dialTimeout(rep *vh.Report, seed uint64, idx int) {
 	life := watchLife(node)
 	// let at least two attempts time out, then start answering
 	time.Sleep(700 * time.Millisecond)
+	// every one of these attempts hung for the whole dial timeout and failed; the next one may start only after the reconnect
+	// delay has passed SINCE THE FAILURE: two starts are at least (dial timeout + reconnect delay) apart (neither timer
+	// can fire early, so load cannot make this bound fail)
+	amu.Lock()
+	at := append([]time.Time(nil), attempts...)
+	amu.Unlock()
+	for i := 1; i < len(at); i++ {
+		rep.Count("slow_failing_attempt_gaps_checked", 1)
+		if gap := at[i].Sub(at[i-1]); gap < dialTimeout+c14reconnect-2*time.Millisecond {
+			rep.Violation("ep=tcp-client what=no-delay", fmt.Sprintf("a connection attempt that hung for the dial timeout (%v) and failed was followed by the next attempt %v after its START: less than the reconnect delay (%v) after its failure", dialTimeout, gap, c14reconnect),
+				map[string]interface{}{"attempt": i})
+			break
+		}
+	}
 	if life.count(true) != 0 {
 		rep.Inconclusive("C14 dial-timeout: the node connected although the queue was full")
 		if !safeClose(rep, node) {
